@@ -218,8 +218,7 @@ func TestC11_Moments(t *testing.T) {
 				}
 				doClose()
 				if target.kind != "root" {
-					snap := req.release(w.api, false)
-					w.h("pending relist released at rv %d after the close", snap.rv)
+					w.completeRelist(req)
 				}
 			} else {
 				doClose()
